@@ -90,7 +90,7 @@ impl<T> VpIter<T> {
     /// `filter_map(f)`: the `Some` results in order; the result length is bounded by the input length
     #[verifier::external_body]
     pub fn filter_map<U, F: FnMut(T) -> Option<U>>(self, f: F) -> (r: VpIter<U>)
-        requires forall|x: T| f.requires((x,)),
+        requires forall|k: int| 0 <= k < self.rest().len() ==> f.requires((#[trigger] self.rest()[k],)),
         ensures
             r.rest().len() <= self.rest().len(),
             forall|k: int| 0 <= k < r.rest().len() ==> (exists|j: int| 0 <= j < self.rest().len() && f.ensures((self.rest()[j],), Some(#[trigger] r.rest()[k]))),
@@ -111,6 +111,20 @@ impl<T> VpIter<T> {
 #[verifier::external_body]
 pub fn vp_enumerate<T>(v: Vec<T>) -> (r: VpIter<(usize, T)>)
     ensures r.rest().len() == v@.len(), forall|k: int| 0 <= k < v@.len() ==> (#[trigger] r.rest()[k]).0 == k && r.rest()[k].1 == v@[k],
+{ unimplemented!() }
+/// itertools::Position as yielded by `with_position()`
+pub mod itertools {
+    use super::*;
+    #[derive(Clone, Copy, PartialEq, Eq)]
+    pub enum Position { First, Middle, Last, Only }
+}
+pub open spec fn position_of(k: int, n: int) -> itertools::Position {
+    if n == 1 { itertools::Position::Only } else if k == 0 { itertools::Position::First } else if k == n - 1 { itertools::Position::Last } else { itertools::Position::Middle }
+}
+/// rule R9: `v.into_iter().with_position()` (itertools) is rewritten to `vp_with_position(v)`
+#[verifier::external_body]
+pub fn vp_with_position<T>(v: Vec<T>) -> (r: VpIter<(itertools::Position, T)>)
+    ensures r.rest().len() == v@.len(), forall|k: int| 0 <= k < v@.len() ==> (#[trigger] r.rest()[k]).0 == position_of(k, v@.len() as int) && r.rest()[k].1 == v@[k],
 { unimplemented!() }
 /// rule R9: `v.into_iter()` handed to a generic `impl Iterator` parameter
 #[verifier::external_body]
